@@ -17,15 +17,26 @@ Definition ds_eqb (a b : ds) : bool :=
 Definition has_ds (d : ds) (l : list ds) : bool := existsb (ds_eqb d) l.
 
 (* the key of a call: its canonical call (identical calls share one) and, per Future argument,
-   whether it was replaced by a FutureItem (found in memory_dict) or by its value *)
-Definition key := (nat * list bool)%type.
-Fixpoint bools_eqb (a b : list bool) : bool :=
+   how it was replaced: by a FutureItem naming the result file of the producing call (found in
+   memory_dict; the file name is the producer's key, so the producer's key is part of this one)
+   or by its value (None) *)
+Inductive ktree := KT (c : nat) (pat : list (option ktree)).
+Definition key := (nat * list (option ktree))%type.
+Definition key_tree (k : key) : ktree := KT (fst k) (snd k).
+
+Fixpoint ktree_eqb (a b : ktree) : bool :=
   match a, b with
-  | [], [] => true
-  | x :: a', y :: b' => Bool.eqb x y && bools_eqb a' b'
-  | _, _ => false
+  | KT c1 p1, KT c2 p2 =>
+      Nat.eqb c1 c2 &&
+      (fix go (x y : list (option ktree)) : bool :=
+         match x, y with
+         | [], [] => true
+         | None :: x', None :: y' => go x' y'
+         | Some u :: x', Some v :: y' => ktree_eqb u v && go x' y'
+         | _, _ => false
+         end) p1 p2
   end.
-Definition key_eqb (a b : key) : bool := Nat.eqb (fst a) (fst b) && bools_eqb (snd a) (snd b).
+Definition key_eqb (a b : key) : bool := ktree_eqb (key_tree a) (key_tree b).
 
 Inductive ext := EIn | ERdy | EOut.
 Definition ext_eqb (a b : ext) : bool :=
@@ -65,7 +76,7 @@ Definition qalive (p : fproc) : bool := match qpc p with QExit => false | _ => t
 (* ---------- the loop thread ---------- *)
 Inductive fpcT :=
 | GNone | GGet
-| GConvRes (i d : nat) (rest : list nat) (pat : list bool) (waits : list key)   (* arg.result() of a future not in memory_dict *)
+| GConvRes (i d : nat) (rest : list nat) (pat : list (option ktree)) (waits : list key)   (* arg.result() of a future not in memory_dict *)
 | GListdir (i : nat) (k : key) (waits : list key)
 | GExistsIn (i : nat) (k : key) (waits : list key)
 | GRemove (i : nat) (k : key) (waits : list key)
@@ -136,7 +147,7 @@ Definition fsetp (s : fstateX) (n : nat) (p : fproc) : fstateX := set_fps s (upd
 
 (* _convert_args_and_kwargs: Future arguments found in memory_dict become FutureItems (no
    point); one that is not found is resolved by arg.result() (a point) *)
-Fixpoint conv (c : fcfg) (s : fstateX) (i : nat) (todo : list nat) (pat : list bool) (waits : list key) : fstateX :=
+Fixpoint conv (c : fcfg) (s : fstateX) (i : nat) (todo : list nat) (pat : list (option ktree)) (waits : list key) : fstateX :=
   match todo with
   | [] => (* serialize_funct_h5; `if task_key not in memory_dict` *)
       let k := (fcanon c i, pat) in
@@ -146,7 +157,7 @@ Fixpoint conv (c : fcfg) (s : fstateX) (i : nat) (todo : list nat) (pat : list b
       end
   | d :: rest =>
       match mem_find (mem s) d with
-      | Some kd => conv c s i rest (pat ++ [true]) (waits ++ [kd])
+      | Some kd => conv c s i rest (pat ++ [Some (key_tree kd)]) (waits ++ [kd])
       | None => set_fpc s (GConvRes i d rest pat waits)
       end
   end.
@@ -189,7 +200,7 @@ Definition f_step (c : fcfg) (s : fstateX) : option (fstateX * flabel) :=
       end
   | GConvRes i d rest pat waits =>
       match getf b d with
-      | FRes _ => Some (conv c s i rest (pat ++ [false]) waits, FL (LResult d))
+      | FRes _ => Some (conv c s i rest (pat ++ [None]) waits, FL (LResult d))
       | FCancelled | FCancelledN | FExc => Some (f_end s true, FL (LResult d))      (* result() raises *)
       | _ => None
       end
